@@ -10,13 +10,11 @@ namespace Flute.Recv
 open Flute
 variable {σ : Type}
 
-/-- an OTI carrying nothing but the scheme: `get_fec_inline_payload_id(pkt)` picks the codec from the
-    codepoint only -/
-def cpOti (cp : Nat) : Flute.Fti.Oti :=
-  { fecId := cp, inst := 0, maxSbl := 0, esl := 0, parity := 0, ss := .none, inbandFti := false }
-
 /-- what `Receiver::push` / `FdtReceiver::push` / `ObjectReceiver::push` read of an accepted packet
-    (`d` = `pkt.data`) -/
+    (`d` = `pkt.data`).  Known gaps of the RECORD `Recv.Pkt` (agent wire's reading, see also
+    `Flute.Props.C04.Wire.toPkt_ofAlc_facts`): no `cenc` field (`ObjectReceiver::push` reads an in-band
+    EXT_CENC; `Full.toPkt` hands `none`), and `Recv.Oti` keeps (fec, esl, msbl) only - parity and the
+    scheme-specific part of `pkt.oti` are dropped (harmless while `Full.params` decodes No-Code only). -/
 def ofAlc (d : List Nat) (p : Alc.AlcPkt) : Pkt :=
   { toi := p.lct.toi
     closeObject := p.lct.closeObject
@@ -28,7 +26,7 @@ def ofAlc (d : List Nat) (p : Alc.AlcPkt) : Pkt :=
     fti := match p.oti, p.transferLength with
       | some o, some l => some ⟨⟨o.fecId, o.esl, o.maxSbl⟩, l⟩
       | _, _ => none
-    pid := match Alc.parsePayloadId d p (cpOti p.lct.cp) with
+    pid := match Alc.getFecInlinePayloadId d p with   -- `Err` for codepoint 2 (RS GF(2^m)): agent wire
       | .ok r => some (r.sbn, r.esi)
       | _ => none
     plen := d.length - p.payloadOffset
